@@ -21,6 +21,7 @@ META = {
     "not_decided": "transitivity/totality for all values (NaN), that the result is an ordered permutation for every input",
     "assumptions": [],
 }
+META["explanation"] += " " + '(SB-eqlen) the equality members of String / StringView / StringStream compare contents only after an equality test of the two lengths.'
 META["explanation"] += " " + '(PR-sortperm) the container-level Sort members reorder only: they call no membership-changing operation and write no element directly.'
 META["explanation"] += " " + 'PR-sort additionally: on every path through the loop body the ranges recursed into or continued with include [start, pivot) and [pivot + 1, end) (linear forms of the range arguments), and every element access has start <= index < end (E-ZONE, under start <= end, which every recursive call re-establishes).'
 
@@ -346,4 +347,6 @@ def run(ctx):
                       f.nodes[f.strip((f.call_args(x) if f.nodes[x]["k"] == "CXXOperatorCallExpr" else f.nodes[x]["ch"])[0])]["k"] == "ArraySubscriptExpr"]
             r.ob(f.sig, "reorders only", not bad and not writes, "membership-changing operations inside Sort: %s; direct element writes: %s" % (bad or "none", writes or "none"), "%s:%d" % (f.file.split("/Include/")[-1], f.line))
     rules.append(r)
+    from rules.common import rule_equal_lengths
+    rules.append(rule_equal_lengths(ctx, m))
     return rules
